@@ -351,6 +351,11 @@ func VerifC17GitLabBFS(universe []Report, initial [][]VerifGLDisc, maxComments i
 		if len(n.path) > res.MaxDepth {
 			res.MaxDepth = len(n.path)
 		}
+		VerifTick()
+		if len(seen) > 100000 {
+			res.Violations = append(res.Violations, VerifC17Violation{Sig: "state-space-does-not-close", What: "more than 100000 distinct stores reached: some run keeps creating comments", Path: n.path})
+			break
+		}
 		if os.Getenv("VERIF_C17_DEBUG") != "" && len(seen)%50 == 0 {
 			fmt.Fprintf(dbgFile(), "gitlab bfs: seen=%d queue=%d transitions=%d depth=%d store=%d\n", len(seen), len(queue), res.Transitions, len(n.path), len(n.store))
 		}
